@@ -406,7 +406,31 @@ def task_slots(chk: Check, repo: Repo) -> None:
         chk.ob("invalid-seq-cancel", cz.site(), got == want, f"cancel with task={cell}: {sorted(got)}", key=f"invseq-cancel|{cell}")
 
 
+def transport_slot(chk: Check, repo: Repo) -> None:
+    """A lost stream connection reaches the tunnel through `TCPTransport._connection_lost`, which tells a loss from a
+    deliberate stop by the transport slot: `self.transport is not None` means nobody stopped it.  So the slot of a
+    KNX/IP transport object is cleared only by `KNXIPTransport.stop()` - a second site that clears it (e.g. next to a
+    `close()` whose `connection_lost` is meant to report the loss) makes the report look intentional: the interface keeps
+    reading 'connected' with no connection, and no reconnect starts."""
+    base = repo.cls("xknx.io.transport.ip_transport", "KNXIPTransport")
+    fam = {c.name for c in [base] + repo.subclasses(base, strict=True)}
+    ws = [w for w in attr_writes(repo, "transport", include_mutators=False) if w.func.cls is not None and w.func.cls.name in fam and isinstance(w.stmt, ast.Assign) and any(ast.unparse(t) == "self.transport" for t in w.stmt.targets)]
+    clears = [w for w in ws if isinstance(w.stmt.value, ast.Constant) and w.stmt.value.value is None and w.func.name != "__init__"]
+    chk.floor("clear sites of the transport slot", len(clears), 1)
+    for w in clears:
+        ok = w.func.qualname == "KNXIPTransport.stop"
+        chk.ob("only-stop-clears-the-transport-slot", w.func.site(w.stmt), ok, f"`self.transport = None` in {w.func.qualname}" + ("" if ok else ": the loss reported for this connection afterwards passes `_connection_lost`'s guards as an intentional stop - the tunnel is never told, 'connected' stays set"), key=f"transport-slot|{w.func.qualname}")
+    tl = repo.func("xknx.io.transport.tcp_transport", "TCPTransport._connection_lost")
+    chk.unit(tl)
+    cfg = CFG(tl.node)
+    mf = cfg.must_facts()
+    cbs = [n for n in cfg.nodes if n.ast is not None and n.kind == "stmt" and any(call_name(c) == "self._connection_lost_cb" for c in calls(n.ast))]
+    ok = bool(cbs) and all(("self.transport is not None", True) in mf[n.id] or ("self.transport is None", False) in mf[n.id] or ("self.transport", True) in mf[n.id] for n in cbs)
+    chk.ob("only-stop-clears-the-transport-slot", tl.site(), ok, "TCPTransport._connection_lost reports a loss only while the slot is set (the fact the rule above protects)", key="transport-slot|guard")
+
+
 def run(chk: Check, repo: Repo) -> None:
+    transport_slot(chk, repo)
     from .common_rules import dispatch_iterates_a_snapshot
     dispatch_iterates_a_snapshot(chk, repo, repo.func("xknx.core.connection_manager", "ConnectionManager._connection_state_changed"), "_connection_state_changed_cbs", "the state-change callbacks", "snapshot|state-callbacks")
     manager(chk, repo)
